@@ -113,7 +113,7 @@ func init() {
 		return Ops{
 			Less: func(i, j int) bool { return slice[i] < slice[j] },
 			HashWithSeed: func(i int, seed uint32) uint32 {
-				return hash32(math.Float32bits(slice[i]), seed)
+				return hash32(float32bits(slice[i]), seed)
 			},
 		}
 	})
@@ -122,7 +122,7 @@ func init() {
 		return Ops{
 			Less: func(i, j int) bool { return slice[i] < slice[j] },
 			HashWithSeed: func(i int, seed uint32) uint32 {
-				return hash64(math.Float64bits(slice[i]), seed)
+				return hash64(float64bits(slice[i]), seed)
 			},
 		}
 	})
@@ -136,6 +136,23 @@ func init() {
 		}
 	})
 
+}
+
+// Float32bits returns the bits hashed for a float32 key. Keys that compare
+// equal must hash equally: -0 == +0, so negative zero is hashed as zero.
+func float32bits(v float32) uint32 {
+	if v == 0 {
+		v = 0
+	}
+	return math.Float32bits(v)
+}
+
+// Float64bits is the float64 analog of float32bits.
+func float64bits(v float64) uint64 {
+	if v == 0 {
+		v = 0
+	}
+	return math.Float64bits(v)
 }
 
 // Hash32 is the 32-bit integer hashing function from
